@@ -31,7 +31,7 @@ ASSUMPTIONS = ["repeatability is only claimed (and checked) for single-process r
                "uniqueness of samples is checked on the Forward payoff (strictly monotone, continuous): bit-equal stored values mean shared variates",
                "each run is a subprocess with a 300 s time-out; a time-out is inconclusive"]
 REQUIRED_COUNTERS = ["fresh_interpreter_repeats", "in_process_repeats", "seed_audits", "seedings_observed", "tagged_rows_consumed",
-                     "multi_worker_runs", "duplicate_value_scans", "seedings_observed_across_processes", "uniform_variates_observed"]
+                     "multi_worker_runs", "duplicate_value_scans", "seedings_observed_across_processes", "uniform_variates_observed", "same_engine_repeats"]
 MIN_NONTRIVIAL = {"quick": 12, "thorough": 60}
 SHARD_TIMEOUT = {"quick": 1500, "thorough": 7200}
 
@@ -47,20 +47,30 @@ def gen_cases(tier, seed):
             cases.append({"monitor": "repeat-fresh", "run": dict(base, workers=1)})
             cases.append({"monitor": "repeat-in-process", "run": dict(base, workers=1)})
             cases.append({"monitor": "seed-audit", "run": dict(base, workers=1)})
+            cases.append({"monitor": "repeat-same-engine", "run": dict(base, workers=1)})
+            if not st and p == "bs":
+                # default number of processes (None: one worker per core) with a seed
+                cases.append({"monitor": "exactly-once", "run": dict(base, workers=None, paths=64)})
             if not st:
                 for w in ((1, 2, 4) if thorough or p == "bs" else (2,)):
                     cases.append({"monitor": "exactly-once", "run": dict(base, workers=w, paths=48)})
                 cases.append({"monitor": "exactly-once", "run": dict(base, workers=2, paths=37, seed=None)})
             k += 1
+    # the seed 0 is a seed like any other
+    cases.append({"monitor": "repeat-fresh", "run": {"engine": "standard", "process": "hem", "paths": 24, "stochastic_dates": False, "seed": 0, "workers": 1}})
+    cases.append({"monitor": "repeat-in-process", "run": {"engine": "mlmc-fixed", "process": "chain", "paths": 16, "stochastic_dates": False, "seed": 0, "workers": 1, "rmse": 0.6}})
     for eng in ("mlmc-fixed", "mlmc"):
         for st in (False, True):
             base = {"engine": eng, "process": "chain", "paths": 20, "stochastic_dates": st, "seed": 4321 + seed, "rmse": 0.6}
             cases.append({"monitor": "repeat-fresh", "run": dict(base, workers=1)})
             cases.append({"monitor": "repeat-in-process", "run": dict(base, workers=1)})
             cases.append({"monitor": "seed-audit", "run": dict(base, workers=1)})
+            cases.append({"monitor": "repeat-same-engine", "run": dict(base, workers=1)})
             if not st:
                 cases.append({"monitor": "exactly-once", "run": dict(base, workers=1)})
                 cases.append({"monitor": "exactly-once", "run": dict(base, workers=2)})
+                if eng == "mlmc-fixed":
+                    cases.append({"monitor": "exactly-once", "run": dict(base, workers=None, paths=12)})
     # copula chain (standard engine) and copula coupling (multilevel engine): pre-drawn rows of vector-valued increments
     for k2, (eng, st) in enumerate((("standard", False), ("standard", True), ("mlmc-fixed", False), ("mlmc", False)) if thorough else (("standard", False), ("mlmc", False))):
         base = {"engine": eng, "process": "copula", "paths": 24 if eng == "standard" else 16, "stochastic_dates": st, "seed": 777 + seed + k2, "rmse": 0.8}
@@ -109,6 +119,7 @@ def run_case(case, R):
     wit = {"case": case}
     tag = _tag(run)
     R.klass(f"{mon}:{tag}:w{run['workers']}")
+    nworkers = run["workers"] if run["workers"] is not None else (os.cpu_count() or 2)
     if mon == "repeat-fresh":
         a, err = _subprocess_run(run)
         b, err2 = _subprocess_run(run)
@@ -142,6 +153,21 @@ def run_case(case, R):
             first = _first_diff(a["levels"], b["levels"])
             R.violation(f"seeded-run-depends-on-earlier-generator-state-{tag}", f"{tag}, seed {run['seed']}: the same seeded run gives different samples after "
                         f"the global generators were used in between (level {first[0]}, sample {first[1]}: {first[2]!r} vs {first[3]!r})", wit)
+        if sum(len(x) for x in a["levels"]) >= 8:
+            R.nontrivial_case(mon, run)
+    elif mon == "repeat-same-engine":
+        from ..c08_runs import do_run
+
+        try:
+            a = do_run(dict(run, reprice=True))
+        except Exception as exc:  # noqa: BLE001
+            _fail(R, tag, f"{type(exc).__name__}: {exc}", wit)
+            return
+        R.hit("same_engine_repeats")
+        if a["digest"] != a["digest2"]:
+            first = _first_diff(a["levels"], a["levels2"])
+            R.violation(f"seeded-run-not-repeatable-on-the-same-engine-{tag}", f"{tag}, seed {run['seed']}, single process: pricing twice with the same engine and "
+                        f"configuration objects gives different samples (level {first[0]}, sample {first[1]}: {first[2]!r} vs {first[3]!r})", wit)
         if sum(len(x) for x in a["levels"]) >= 8:
             R.nontrivial_case(mon, run)
     elif mon == "seed-audit":
@@ -181,7 +207,7 @@ def run_case(case, R):
                 os.remove(ev)
             except OSError:
                 pass
-        if run["workers"] > 1:
+        if nworkers > 1:
             R.hit("multi_worker_runs")
         seedings = [e for e in events if e["kind"] == "seeding"]
         uniforms = [e for e in events if e["kind"] == "uniform"]
